@@ -354,8 +354,17 @@ func (fr *Frame) applyContract(callee *ssa.Function, fc *FuncContract, bindings 
 	// havoc the callee's write set
 	ws := c.writeSet(callee)
 	declared := map[string]bool{}
+	atRefs := map[string][]Term{}
 	for _, m := range fc.Modifies {
-		for _, h := range c.modifiesHeaps(m) {
+		if m.At != nil {
+			if tv, ok := mkCtx(st, pre).evalAny(m.At); ok {
+				for _, h := range c.modifiesHeaps(m.Pat) {
+					atRefs[h] = append(atRefs[h], atRef(tv))
+				}
+			}
+			continue
+		}
+		for _, h := range c.modifiesHeaps(m.Pat) {
 			if strings.HasPrefix(h, "CELL:") {
 				name := strings.TrimPrefix(h, "CELL:")
 				for i, fv := range callee.FreeVars {
@@ -375,6 +384,9 @@ func (fr *Frame) applyContract(callee *ssa.Function, fc *FuncContract, bindings 
 		touched[w] = true
 	}
 	for w := range declared {
+		touched[w] = true
+	}
+	for w := range atRefs {
 		touched[w] = true
 	}
 	for _, w := range sortedKeysOf(touched) {
@@ -400,6 +412,14 @@ func (fr *Frame) applyContract(callee *ssa.Function, fc *FuncContract, bindings 
 			c.assume(at, Le(preNext, nr))
 		case declared[w]:
 			c.havoc(st, w)
+		case len(atRefs[w]) > 0:
+			// only the named objects may change
+			cur := c.get(st, w)
+			inner := innerSortOf(c.heapSorts[w])
+			for _, r := range atRefs[w] {
+				cur = Store(cur, r, c.fresh(w+"_obj", inner))
+			}
+			c.set(st, w, cur)
 		case isLocationHeap(w):
 			old := c.get(st, w)
 			nw := c.havoc(st, w)
